@@ -432,7 +432,9 @@ fn main() {
     let corpus = cf::corpus::load(&ctx.verif_dir);
     let mut groups: BTreeMap<String, Vec<(String, Vec<u8>)>> = BTreeMap::new();
     for (path, bytes) in corpus { let g = path.split('/').next().unwrap_or("").to_string(); groups.entry(g).or_default().push((path, bytes)); }
-    let nc = if groups.is_empty() { 0 } else { ctx.tier.pick(60, 5_000) };
+    // a small slice of the corpus first (a time budget that ends generation early must not starve it, and it must not starve
+    // the generated workload either); the thorough tier runs the bulk of the corpus jars after the generated ones
+    let nc = if groups.is_empty() { 0 } else { 60 };
     run_cases(&ctx, &replay, &mut rep, "corpus", nc, |rng, rep, case| {
         let job = corpus_job(rng, &groups, &scratch, case);
         let o = run_job(rep, &job, Wrong::No);
@@ -449,6 +451,13 @@ fn main() {
         account(rep, &job, &o);
     });
 
+    let nc2 = if groups.is_empty() { 0 } else { ctx.tier.pick(0, 5_000) };
+    run_cases(&ctx, &replay, &mut rep, "corpus-more", nc2, |rng, rep, case| {
+        let job = corpus_job(rng, &groups, &scratch, 1_000_000 + case);
+        let o = run_job(rep, &job, Wrong::No);
+        rep.count("jars.corpus");
+        account(rep, &job, &o);
+    });
     let _ = std::fs::remove_dir_all(&scratch);
     if std::env::var("C07_TIMING").is_ok() { eprintln!("C07_TIMING generated done {:.1}s", ctx.elapsed_s()); }
 
